@@ -403,3 +403,21 @@ func (ao ascendingOrdinal) Swap(i, j int) {
 func (ao ascendingOrdinal) Less(i, j int) bool {
 	return getOrdinal(ao[i]) < getOrdinal(ao[j])
 }
+
+// sanitizeStatefulSet fills in optional fields that the CRD schema does not guarantee to be present or in range
+// (a missing spec, `rollingUpdate: {}`, a negative partition), using the values defaulting would have chosen, so
+// that the control loop never dereferences a nil pointer or indexes with a negative partition. The pod template is
+// not touched, hence revisions are unaffected.
+func sanitizeStatefulSet(set *apps.StatefulSet) {
+	if set.Spec.Replicas == nil {
+		set.Spec.Replicas = new(int32)
+		*set.Spec.Replicas = 1
+	}
+	if set.Spec.RevisionHistoryLimit == nil {
+		set.Spec.RevisionHistoryLimit = new(int32)
+		*set.Spec.RevisionHistoryLimit = 10
+	}
+	if ru := set.Spec.UpdateStrategy.RollingUpdate; ru != nil && (ru.Partition == nil || *ru.Partition < 0) {
+		ru.Partition = new(int32)
+	}
+}
